@@ -289,6 +289,7 @@ def prove_variant(reg, modules, file, qual, variant, timeout_ms=10000, prefix=""
         extra_setup(eng)
     eng.unit_name = qual + (f"[{variant_label(variant)}]" if variant else "")
     eng.feas_timeout_ms = getattr(c, "feas_timeout_ms", 3000)
+    eng.assume_in_range = getattr(c, "assume_in_range", False)
     is_method = "." in qual
     cname = qual.split(".")[0] if is_method else None
     cd = reg.classes.get(cname) if is_method else None
